@@ -111,6 +111,16 @@ def run(ctx):
            "ＡＢ", "0x" + "0" * 4095, "0x" + "f" * 8191, "+00", "-00", "0x+0", "00 0x", "0x0 x00", "x", "0x0X", "#00", "0h00", "\\x00"]
     for t in mal:
         cases.append((t, None, "must", "malformed/listed"))
+    # every ASCII character that is neither a hex digit nor white space, in the high and in the low digit position
+    # (and, without the prefix, as the first character), plus a sample of non-ASCII characters
+    others = [chr(c) for c in range(128) if chr(c) not in "0123456789abcdefABCDEF" and not chr(c).isspace() and c not in (0x1c, 0x1d, 0x1e, 0x1f)]
+    others += [chr(c) for c in (0x1c, 0x1d, 0x1e, 0x1f, 0x80, 0xb2, 0xbd, 0x660, 0x966, 0xff10, 0xff21, 0x1d7ce, 0x2460, 0x3007)]
+    for ch in others:
+        if ch != "x":
+            cases.append(("0x" + ch + "0", None, "must", "malformed/every-char"))
+            cases.append((ch + "0", None, "must", "malformed/every-char"))
+        cases.append(("0x0" + ch, None, "must", "malformed/every-char"))
+        cases.append(("ab" + ch + "1cd", None, "must", "malformed/every-char"))
     # accepted edge cases decided by the model (empty input, lone prefix)
     for t in ["", "0x", " 0 x ", "\n", "0x\n", "0 x 0 0"]:
         cases.append((t, None, "model", "edge/empty"))
@@ -176,6 +186,7 @@ def run(ctx):
         if r.cls != "error" or r.stdout != b"":
             ctx.violation("reject-invalid-utf8", dict(op="hex decode", stdin_hex=b.hex()), dict(exit="error", stdout=""),
                           dict(exit=r.cls, stdout=short(r.stdout)))
+    ctx.exhaustive["every non-hex non-space ASCII character in a digit position (decode)"] = True
     ctx.exhaustive["single bytes 0x00..0xff (encode, round trip)"] = True
     ctx.exhaustive["lengths 0..300 (encode, round trip)"] = True
     try:
